@@ -24,7 +24,7 @@ FAMILY = {"array_int": "array_new", "array_float": "array_new", "array_bool": "a
           "vec_reserve": "vec_reserve", "vec_reserve_float": "vec_reserve", "vec_reserve_bool": "vec_reserve", "vec_reserve_obj": "vec_reserve",
           "manual_alloc": "manual_alloc", "manual_reuse": "manual_alloc", "bytes_alloc": "bytes_alloc",
           "string_repeat": "string_repeat", "string_repeat_mb": "string_repeat", "pad_left": "string_pad", "pad_right": "string_pad",
-          "pad_left_mb": "string_pad", "pad_right_mb": "string_pad", "concat_double": "string_concat",
+          "pad_left_mb": "string_pad", "pad_right_mb": "string_pad", "concat_double": "string_concat", "string_derived": "string_derived",
           "replace_sq": "string_product", "join_sq": "string_product", "str_literal": "string_literal",
           "vec_new_lit": "vec_literal", "closures": "closure", "churn": "closure_churn", "churn_mix": "object_churn", "churn_over": "closure_churn",
           "bytes_many": "bytes_alloc", "bytes_clone": "bytes_alloc", "bytes_resize": "bytes_alloc", "bytes_cycle": "bytes_alloc", "bytes_from_string": "bytes_alloc", "fs_read_bytes": "fs_read_bytes",
@@ -38,7 +38,7 @@ UNIT = {"array_int": 8, "array_float": 8, "array_obj": 8, "array_bool": 1, "vec_
 CAP_LO, CAP_HI = 1536 << 20, 3072 << 20
 LOOPS = ("vec_push", "vec_push_float", "vec_push_bool", "vec_push_obj", "vec_fill", "vec_fill_float", "vec_fill_bool", "vec_fill_obj",
          "concat_double", "vec_new_lit", "closures", "manual_reuse", "replace_sq", "join_sq", "str_literal", "churn", "churn_mix", "churn_over",
-         "bytes_alloc", "bytes_many", "bytes_clone", "bytes_resize", "bytes_cycle", "bytes_from_string")   # a refusal in the middle leaves the earlier charges
+         "bytes_alloc", "bytes_many", "bytes_clone", "bytes_resize", "bytes_cycle", "bytes_from_string", "string_derived")   # a refusal in the middle leaves the earlier charges
 GUARDED_LOOPS = ("vec_new_lit", "closures")      # modelled as OLoop with the per-iteration requests read from the check log
 BYTES_TIED = ("bytes_alloc", "bytes_many", "bytes_clone", "bytes_resize", "bytes_cycle")   # byte buffers: heap part of the delta is the input's code only
 CHURN = ("churn", "churn_mix", "churn_over")                  # objects created and dropped across many collections, then two arrays of 45 % of the limit
